@@ -21,6 +21,34 @@ theorem afterStateWrite_shift (w1 w2 w3 : SW) (rest : List SW) (j : Nat)
   | nil => rw [ht] at h; simp at h
   | cons x xs => rw [ht] at h; simpa [List.getLast?_cons_cons] using h
 
+theorem afterStateWrite_shift_eq (w1 w2 : SW) (h : Nat) (rest : List SW) (j : Nat) :
+    afterStateWrite (w1 :: w2 :: .setHeight h :: rest) (j + 3) = afterStateWrite rest j := by
+  unfold afterStateWrite
+  simp only [List.take_succ_cons]
+  cases ht : rest.take j with
+  | nil => simp
+  | cons x xs => simp [List.getLast?_cons_cons]
+
+/-- the excluded crash points of a step are exactly those with `k ≡ 1 (mod 3)` inside the step's writes: one
+block's state written, the block itself not yet -/
+theorem AppliedWrites.afterStateWrite_iff {h h' : Nat} {ws : List SW} (a : AppliedWrites c ch h ws h') (k : Nat) :
+    afterStateWrite ws k = true ↔ k % 3 = 1 ∧ k ≤ ws.length := by
+  induction a generalizing k with
+  | nil =>
+    simp only [afterStateWrite, List.take_nil, List.getLast?_nil, List.length_nil]
+    constructor
+    · intro h; cases h
+    · intro ⟨a, b⟩; omega
+  | @cons h h' ws b sb _ _ a ih =>
+    match k with
+    | 0 => simp [afterStateWrite]
+    | 1 => simp [afterStateWrite]
+    | 2 => simp [afterStateWrite]
+    | j + 3 =>
+      rw [afterStateWrite_shift_eq, ih j]
+      simp only [List.length_cons]
+      omega
+
 /-- a consistent image whose stored height is up to date and equals `h` -/
 structure Settled (c : Cfg) (ch : PChain) (s : Store) (h : Nat) : Prop where
   ok : DiskOK c ch s
